@@ -58,7 +58,7 @@ REQUIRED_COUNTERS = (
        'cmaes_restarts_after_tell_with_empty_queue',
        'route:sql', 'route:kv', 'all_subsets_enumerated',
        'service_ledgers_checked', 'service_restarts', 'service_streams_compared'])
-MIN_DISTINCT = {'quick': 600, 'thorough': 6000}
+MIN_DISTINCT = {'quick': 350, 'thorough': 6000}
 
 
 def plan(tier, seed):
